@@ -185,6 +185,8 @@ def call_trait(w, it, selfty, trait, meth, args, callee, frame):
             return Ref(v.cell, (), meth != "deref")
         if isinstance(v, ModelObj) and hasattr(v, "deref"):
             return v.deref(it)
+        if isinstance(v, ModelObj):
+            return args[0]
         if isinstance(v, (str, bytes)):
             return args[0]
         raise Unsupported("deref of %r" % (v,))
@@ -507,6 +509,8 @@ def install(w):
         txt = "fmt"
         if isinstance(v, bytes):
             txt = "".join(chr(b) for b in v if 32 <= b < 127)
+        elif isinstance(v, str):
+            txt = re.sub(r"\\x[0-9a-fA-F]{2}|\\n|\\t", " ", v)
         return Opaque("Arguments", txt)
 
     @reg("Argument::new_display", "Argument::new_debug", "Argument::new_lower_hex", "Argument::new_upper_hex")
@@ -950,14 +954,30 @@ def install(w):
     @reg("HashMap::new")
     def hm_new(w, it, a, c):
         return HMap()
+    w.HMap = HMap
 
     @reg("HashMap::len")
     def hm_len(w, it, a, c):
-        return IntV(len(deref(it, a[0]).d), 64)
+        m = deref(it, a[0])
+        if getattr(m, "sym", None) is not None:
+            tot = z3.BitVecVal(0, 64)
+            for _k, pres, _v in m.sym:
+                tot = tot + z3.If(pres, z3.BitVecVal(1, 64), z3.BitVecVal(0, 64))
+            return IntV(z3.simplify(tot), 64)
+        return IntV(len(m.d), 64)
 
     @reg("HashMap::get")
     def hm_get(w, it, a, c):
         m = deref(it, a[0])
+        if getattr(m, "sym", None) is not None:
+            # symbolic map over a fixed key universe: fork on which (present) key is hit
+            kv = deref(it, a[1])
+            conds = [z3.And(kv.z() == z3.BitVecVal(k, 64), pres) for k, pres, _v in m.sym]
+            conds.append(z3.Not(z3.Or(conds)))
+            i = it.ex.branch(conds)
+            if i < len(m.sym):
+                return mk_some(Ref(Cell(m.sym[i][2], "symmap[%d]" % m.sym[i][0]), (), False))
+            return mk_none()
         k = key_of(it, a[1])
         if k in m.d:
             return mk_some(Ref(m.d[k], (), False))
@@ -998,10 +1018,18 @@ def install(w):
         deref(it, a[0]).items.append(a[1])
         return UNIT
 
+    @reg("Box::new_uninit")
+    def box_new_uninit(w, it, a, c):
+        # MaybeUninit<T> { uninit: (), value: ManuallyDrop<MaybeDangling<T>> }  (field paths .1.0.0)
+        mu = Agg("struct", "MaybeUninit", [UNIT, Agg("struct", "ManuallyDrop", [Agg("struct", "MaybeDangling", [UNINIT])])])
+        return BoxV(Cell(mu, "box-uninit"), "Box")
+
     @reg("slice::into_vec", "std::slice::into_vec", "box_assume_init_into_vec_unsafe", "std::boxed::box_assume_init_into_vec_unsafe")
     def into_vec(w, it, a, c):
         v = a[0]
         v = v.cell.value if isinstance(v, BoxV) else v
+        if isinstance(v, Agg) and v.name == "MaybeUninit":
+            v = v.fields[1].fields[0].fields[0]
         return VecV(list(v.fields) if isinstance(v, Agg) else [])
 
     @reg("slice::join", "join")
@@ -1133,8 +1161,18 @@ def install(w):
         if "std::sync::mpsc" in c:
             return std_channel(w, it, a, c)
         cap = a[0]
-        if not isinstance(cap, IntV) or cap.is_sym():
-            raise Unsupported("symbolic channel capacity")
+        w.channel_requests = getattr(w, "channel_requests", [])
+        w.channel_requests.append(cap)
+        if isinstance(cap, IntV) and cap.is_sym():
+            # data-flow obligation only (C09): remember the requested buffer expression and go on
+            # with a placeholder capacity; buffer == 0 panics in tokio
+            if not it.ex.branch_bool(cap.v != 0):
+                raise RustPanic("mpsc bounded channel requires buffer > 0")
+            ch = W.Chan(w, 1, "mpsc")
+            it.ex.event(ev="channel", id=ch.id, cap="symbolic")
+            return Agg("tuple", "", [W.Sender(ch), W.Receiver(ch)])
+        if not isinstance(cap, IntV):
+            raise Unsupported("channel capacity %r" % (cap,))
         if cap.v == 0:
             raise RustPanic("mpsc bounded channel requires buffer > 0")
         ch = W.Chan(w, cap.v, "mpsc")
